@@ -45,15 +45,15 @@ def xenv(hashseed: str) -> T.Dict[str, str]:
 # model checking
 
 
-def model_check(chk: Check, quick: bool) -> T.List[T.Dict[str, T.Any]]:
+def model_check(chk: Check, quick: bool) -> T.Tuple[T.List[T.Dict[str, T.Any]], T.Callable[[], None]]:
     """quick: the family with one sub-directory placement, mutations explored on the chains.
-    thorough: the whole family with mutations on the chains, and (in parallel) the small placement with mutations on
-    every project."""
+    thorough: the whole family with mutations on the chains, and (in parallel; joined by the returned function, so
+    that the configuration of the family does not wait for it) the small placement with mutations on every project."""
     cfg = (SPECS / 'xcode' / 'Xcode_MC.cfg').read_text()
     small = cfg.replace('LocSet = "all"', 'LocSet = "small"')
-    runs = [('Xcode_MC[LocSet=small,Mutate=chains]', small, True)] if quick else \
-        [('Xcode_MC[LocSet=all,Mutate=chains]', cfg, True),
-         ('Xcode_MC[LocSet=small,Mutate=all]', small.replace('Mutate = "chains"', 'Mutate = "all"').replace('POSTCONDITION EmitFamily\n', ''), False)]
+    first = ('Xcode_MC[LocSet=small,Mutate=chains]', small) if quick else ('Xcode_MC[LocSet=all,Mutate=chains]', cfg)
+    second = None if quick else ('Xcode_MC[LocSet=small,Mutate=all]',
+                                 small.replace('Mutate = "chains"', 'Mutate = "all"').replace('POSTCONDITION EmitFamily\n', ''))
     out: T.Dict[str, T.Any] = {}
     errs: T.List[BaseException] = []
 
@@ -64,16 +64,22 @@ def model_check(chk: Check, quick: bool) -> T.List[T.Dict[str, T.Any]]:
         except BaseException as e:  # re-raised in the main thread
             errs.append(e)
 
-    th = [threading.Thread(target=one, args=r) for r in runs]
-    for t in th:
-        t.start()
-    for t in th:
-        t.join()
+    th2 = threading.Thread(target=one, args=(second[0], second[1], False)) if second else None
+    if th2:
+        th2.start()
+    one(first[0], first[1], True)
     if errs:
         raise errs[0]
-    for name, _, _ in runs:
-        chk.add_tlc(name, out[name])
-    return T.cast(T.List[T.Dict[str, T.Any]], json.loads(out[runs[0][0]].collected['xfamily.json']))
+    chk.add_tlc(first[0], out[first[0]])
+
+    def join() -> None:
+        if th2 and second:
+            th2.join()
+            if errs:
+                raise errs[0]
+            chk.add_tlc(second[0], out[second[0]])
+
+    return T.cast(T.List[T.Dict[str, T.Any]], json.loads(out[first[0]].collected['xfamily.json'])), join
 
 
 # ---------------------------------------------------------------------------
@@ -441,11 +447,11 @@ def pick_family(fam: T.List[T.Dict[str, T.Any]], rnd: random.Random, n: int) -> 
 def main(chk: Check) -> None:
     quick = chk.tier == 'quick'
     rnd = random.Random(chk.seed * 1000003 + 505)
-    n_family = 36 if quick else 900
-    n_random = 20 if quick else 200
+    n_family = 36 if quick else 700
+    n_random = 20 if quick else 160
     chk.max_reported = 200
     chk.rule = ('A: abstract projects of the TLC family (seeded sample: a third chains, a third pairs with a test, a third '
-                "any; 36 quick / 900 thorough), A': every string of <= 3 characters of PlistLex_MC as dictionary value and as "
+                "any; 36 quick / 700 thorough), A': every string of <= 3 characters of PlistLex_MC as dictionary value and as "
                 'array item of the real property-list writer, B: seeded random projects of 3-14 targets and four fixed probes; '
                 'every project is configured twice by the real Xcode backend. Non-trivial = a configured project whose pbxproj '
                 'has >= 60 objects (distinct by abstract project), or a string that needs quotation marks.')
@@ -462,7 +468,7 @@ def main(chk: Check) -> None:
     cases: T.List[T.Dict[str, T.Any]] = []
     with ProcessPoolExecutor(max_workers=common.NCPU) as ex:
         bfut = [ex.submit(run_case, j) for j in bjobs]
-        fam = model_check(chk, quick)
+        fam, join_models = model_check(chk, quick)
         strings = plist_model(chk, quick)
         stages['model_check'] = round(time.time() - t0, 1)
         wfut = [ex.submit(writer_cases, list(part)) for part in common.chunks(strings, 2000)]
@@ -508,6 +514,8 @@ def main(chk: Check) -> None:
     chk.sample({'writer_case': wcases[len(wcases) // 3]}, limit=8)
     report_writer(chk, wbad)
     stages['writer'] = round(time.time() - t0 - sum(stages.values()), 1)
+    join_models()
+    stages['wait_for_second_model_run'] = round(time.time() - t0 - sum(stages.values()), 1)
     chk.exhaustive = False
     chk.assumptions += [
         'the ids of the generated file are random by design (XCodeBackend.gen_id = uuid4): determinism is judged modulo a '
